@@ -7,6 +7,10 @@ from gen import rng_for, grid, data
 from .common import tolist
 
 LEAN = "PystogVerif.Props.C12"
+# theorems about the code generated from stog.py by tools/translate_stog.py (built when these methods translate)
+LEAN_GEN = "PystogVerif.Props.C12Gen"
+STOG_METHODS = ["create_domain", "__update_dr", "transform_merged", "fourier_filter", "apply_lorch", "_add_keen_fq", "_add_keen_gr",
+                "write_out_ft", "write_out_ft_sq", "write_out_ft_gr", "write_out_lorched_gr", "write_out_rmc_fq", "write_out_rmc_gr"]
 ENTRIES = []
 RULE = ("random merged S(Q) (Q>0, 8-40 points), r grid (5-25 points, Rmin 0 or >0), real-space function, density, <b_coh>^2, low-Q "
         "correction flag, cutoff; a random legal sequence of 1-8 operations (thorough 1-30) out of transform / filter / lorch / "
